@@ -32,6 +32,18 @@ func (t *term) String() string {
 	return t.K + "(" + t.A.String() + "," + t.B.String() + ")"
 }
 
+// countIDs: number of nodes that carry an id (everything but Combine / DelayQ).
+func countIDs(t *term) int {
+	if t == nil {
+		return 0
+	}
+	n := countIDs(t.A) + countIDs(t.B)
+	if t.id != 0 {
+		n++
+	}
+	return n
+}
+
 func (t *term) size() int {
 	if t == nil {
 		return 0
@@ -148,8 +160,46 @@ func hasKind(t *term, k string) bool {
 	return t.K == k || hasKind(t.A, k) || hasKind(t.B, k)
 }
 
+// shareStructure renumbers t so that structurally identical subterms carry identical ids; build8
+// then builds each distinct subterm once (see builder.share), so one Seq VALUE occurs at several
+// positions of the term - as it does when user code stores a Seq in a variable and uses it twice.
+func shareStructure(t *term, table map[string]int) *term {
+	if t == nil {
+		return nil
+	}
+	c := &term{K: t.K, A: shareStructure(t.A, table), B: shareStructure(t.B, table)}
+	if t.K != "Combine" && t.K != "DelayQ" {
+		key := t.String()
+		id, ok := table[key]
+		if !ok {
+			id = len(table) + 1
+			table[key] = id
+		}
+		c.id = id
+	}
+	return c
+}
+
+// shared, when non-nil, memoises built Seq values by structure for the duration of one execution.
+var sharedKey = struct{}{}
+
+type shareMemo map[string]seq.Seq[int]
+
 // ---- the real term, built with the public seq API
 func build8(t *term, c *rt.Ctx) seq.Seq[int] {
+	if m, ok := c.Aux.(shareMemo); ok {
+		key := t.String()
+		if s, ok := m[key]; ok {
+			return s
+		}
+		s := build8raw(t, c)
+		m[key] = s
+		return s
+	}
+	return build8raw(t, c)
+}
+
+func build8raw(t *term, c *rt.Ctx) seq.Seq[int] {
 	switch t.K {
 	case "Normal":
 		return seq.Normal[int]()
@@ -329,6 +379,10 @@ type exec8res struct {
 // runReal8 drives the real term; runs times on the same Seq value (re-use).
 func runReal8(t *term, ans []int, ops string, panicAt, runs int) exec8res {
 	c := rt.New(ans, fuel8, panicAt)
+	if runs < 0 { // shared-structure mode: one Seq value per distinct subterm
+		runs = 1
+		c.Aux = shareMemo{}
+	}
 	cur := -1
 	func() {
 		defer func() {
@@ -362,6 +416,9 @@ func runReal8(t *term, ans []int, ops string, panicAt, runs int) exec8res {
 }
 
 func runRef8(t *term, ans []int, ops string, panicAt, runs int) exec8res {
+	if runs < 0 {
+		runs = 1
+	}
 	c := rt.New(ans, fuel8, panicAt)
 	k := &consumer8{c: c, ops: ops}
 	func() {
@@ -511,8 +568,9 @@ func C08(tier string) *core.Report {
 	}
 	memo := map[int][]*term{}
 	type job struct {
-		t    *term
-		lite bool
+		t      *term
+		lite   bool
+		shared *term // non-nil when the term has repeated subterms
 	}
 	var jobs []job
 	pruned := 0
@@ -523,7 +581,13 @@ func C08(tier string) *core.Report {
 				continue
 			}
 			k := 0
-			jobs = append(jobs, job{clone(t, &k), n > maxFull})
+			j := job{t: clone(t, &k), lite: n > maxFull}
+			table := map[string]int{}
+			sh := shareStructure(t, table)
+			if countIDs(sh) > len(table) {
+				j.shared = sh
+			}
+			jobs = append(jobs, j)
 		}
 	}
 	ops4 := opStrings8(4)
@@ -541,6 +605,10 @@ func C08(tier string) *core.Report {
 		if rs.fail == nil {
 			// the same Seq value started twice
 			explore8(j.t, []string{"MMMM", "MSMS"}, 3, false, 2, rs)
+		}
+		if rs.fail == nil && j.shared != nil {
+			// structurally identical subterms built once: one Seq value at several positions
+			explore8(j.shared, []string{strings.Repeat("M", 12), "MSMS"}, D, false, -1, rs)
 		}
 	})
 	nodes, execs, events, distinct, full, lite := 0, 0, 0, 0, 0, 0
